@@ -143,6 +143,10 @@ fn main() {
                 let p = params(&a[0])?;
                 Ok(any_sx(&map_any!(to_any(&a[1])?, |t| Subst::apply(I, &p, t))))
             }
+            "SubstApply" => {
+                let p = Substitution::from_iter(I, params(&a[0])?);
+                Ok(any_sx(&map_any!(to_any(&a[1])?, |t| p.apply(t, I))))
+            }
             "BindersSubst" => {
                 let k = vkinds(&a[0])?;
                 let p = params(&a[2])?;
